@@ -2,6 +2,7 @@ package verifsim
 
 import (
 	"context"
+	"encoding/json"
 	"fmt"
 	"strings"
 	"sync"
@@ -264,13 +265,20 @@ func (b *recBackend) handleCreds(ctx context.Context, req *logical.Request, d *f
 	b.enter(ctx, req, "handler")
 	id := b.rec.nextSecret()
 	canary, _ := d.Get("canary").(string)
-	resp := b.Secret("rec").Response(map[string]any{"secret_id": id, "password": canary}, map[string]any{"id": id, "canary": canary})
+	var ttl, maxTTL time.Duration
 	if v, ok := d.GetOk("ttl"); ok {
-		resp.Secret.TTL = time.Duration(v.(int)) * time.Second
+		ttl = time.Duration(v.(int)) * time.Second
 	}
 	if v, ok := d.GetOk("max_ttl"); ok {
-		resp.Secret.MaxTTL = time.Duration(v.(int)) * time.Second
+		maxTTL = time.Duration(v.(int)) * time.Second
 	}
+	if maxTTL > 0 && ttl > maxTTL {
+		ttl = maxTTL // a backend never asks for more than its own maximum
+	}
+	resp := b.Secret("rec").Response(map[string]any{"secret_id": id, "password": canary},
+		map[string]any{"id": id, "canary": canary, "ttl": int(ttl / time.Second), "max_ttl": int(maxTTL / time.Second)})
+	resp.Secret.TTL = ttl
+	resp.Secret.MaxTTL = maxTTL
 	resp.Secret.Renewable = !d.Get("norenew").(bool)
 	b.rec.mu.Lock()
 	b.rec.Issued[id] = true
@@ -304,8 +312,20 @@ func (b *recBackend) secretRevoke(ctx context.Context, req *logical.Request, d *
 func (b *recBackend) secretRenew(ctx context.Context, req *logical.Request, d *framework.FieldData) (*logical.Response, error) {
 	id, _ := req.Secret.InternalData["id"].(string)
 	b.rec.add(RecEvent{Kind: "renew", Mount: b.mount, ReqID: ctxReqID(ctx, req), SecID: id})
-	resp := &logical.Response{Secret: req.Secret}
-	return resp, nil
+	// what dynamic-secret backends do: extend within the role's ttl / max_ttl
+	num := func(k string) time.Duration {
+		switch v := req.Secret.InternalData[k].(type) {
+		case int:
+			return time.Duration(v) * time.Second
+		case float64:
+			return time.Duration(v) * time.Second
+		case json.Number:
+			n, _ := v.Int64()
+			return time.Duration(n) * time.Second
+		}
+		return 0
+	}
+	return framework.LeaseExtend(num("ttl"), num("max_ttl"), b.System())(ctx, req, d)
 }
 
 func (b *recBackend) handleLogin(ctx context.Context, req *logical.Request, d *framework.FieldData) (*logical.Response, error) {
@@ -346,5 +366,7 @@ func (b *recBackend) handleLogin(ctx context.Context, req *logical.Request, d *f
 
 func (b *recBackend) authRenew(ctx context.Context, req *logical.Request, d *framework.FieldData) (*logical.Response, error) {
 	b.rec.add(RecEvent{Kind: "authrenew", Mount: b.mount, ReqID: ctxReqID(ctx, req)})
-	return &logical.Response{Auth: req.Auth}, nil
+	// what credential backends do: re-assert the role's ttl / max_ttl / period
+	resp := &logical.Response{Auth: req.Auth}
+	return resp, nil
 }
